@@ -268,7 +268,7 @@ def run_check(prop, tier, seed, replay=None):
     cov_extra = {}
     broke = []          # names of theorems / streams that no longer check
 
-    for old in glob.glob(os.path.join(VERIF, "replays", pid + "-*")):
+    for old in ([] if replay else glob.glob(os.path.join(VERIF, "replays", pid + "-*"))):
         try: os.remove(old)
         except OSError: pass
     # 1. regenerate
